@@ -135,6 +135,9 @@ struct ThreadLocalCache {
     thread_id: ThreadId,
     /// Current hot allocation area
     hot_area: Option<HotArea>,
+    /// Exhausted hot areas: blocks handed out from them (live or parked in the free lists) still
+    /// point into their memory, so they are kept until the cache itself is dropped
+    retired_areas: Vec<HotArea>,
     /// Free lists for each size class
     free_lists: Vec<Vec<NonNull<u8>>>,
     /// Lazy synchronization counter
@@ -209,6 +212,7 @@ impl ThreadLocalCache {
         Self {
             thread_id: thread::current().id(),
             hot_area: None,
+            retired_areas: Vec::new(),
             free_lists: vec![Vec::new(); TLS_SIZE_CLASSES.len()],
             frag_inc: 0,
             global_pool,
@@ -219,6 +223,7 @@ impl ThreadLocalCache {
     /// Allocate memory from thread-local cache
     fn allocate(&mut self, size: usize, config: &ThreadLocalPoolConfig) -> Result<NonNull<u8>> {
         // Try size class free list first
+        let mut size = size;
         if let Some(list_index) = self.size_to_list_index(size) {
             if let Some(ptr) = self.free_lists[list_index].pop() {
                 if let Some(stats) = &self.stats {
@@ -226,6 +231,9 @@ impl ThreadLocalCache {
                 }
                 return Ok(ptr);
             }
+            // Blocks are recycled per size class, so a fresh block of a class must be as large
+            // as the class: any later request of the same class may receive it.
+            size = TLS_SIZE_CLASSES[list_index];
         }
 
         // Try hot area allocation
@@ -278,7 +286,10 @@ impl ThreadLocalCache {
             Ok(mut hot_area) => {
                 // Try to allocate from new hot area
                 if let Some(ptr) = hot_area.try_allocate(size) {
-                    self.hot_area = Some(hot_area);
+                    // keep the exhausted area alive: its blocks are still in use
+                    if let Some(old) = self.hot_area.replace(hot_area) {
+                        self.retired_areas.push(old);
+                    }
                     
                     if let Some(stats) = &self.stats {
                         stats.arena_allocations.fetch_add(1, Ordering::Relaxed);
